@@ -549,6 +549,25 @@ impl<'a> Model<'a> {
             // name resolves to (C09 / C12): no rule here, the case is run but not compared
             E::Now(_) => Err(Silent("wall clock read (C09's ground)")),
             E::NCall(..) => Err(Silent("call by a colliding name (C12's ground)")),
+            // a method of a receiver that fails fails the same way (so an absent receiver
+            // stays absent); on a receiver that evaluates, what the built-in computes is
+            // C15's ground
+            E::MCall(recv, _, _) => match self.definite(recv)? {
+                // absent stays absent; any other failure stays a failure other than absence
+                // (of which class is not stated)
+                MO::Fail(cs) if !cs.is_empty() && cs.iter().all(|c| c.is_absent()) => Ok(MO::Fail(cs)),
+                MO::Fail(cs) if !cs.is_empty() && cs.iter().all(|c| !c.is_absent()) => Ok(MO::Fail(vec![
+                    Class::Misc,
+                    Class::Value,
+                    Class::Argument,
+                    Class::InvalidOp,
+                    Class::Runtime,
+                    Class::DivideByZero,
+                    Class::Internal,
+                ])),
+                MO::Fail(_) => Err(Silent("method on a receiver failing in an unstated way")),
+                _ => Err(Silent("built-in method on a value (C15's ground)")),
+            },
         }
     }
 
